@@ -229,6 +229,11 @@ def build_circuit(spec: dict) -> Circuit:
             c.append_gate(gate(name), loc, list(op[2]) if len(op) > 2 else [])
     while spacer and gate(SPACER) in c.gate_set:
         c.pop(c.point(gate(SPACER)))
+    if spec.get('retag'):
+        # re-parameterise through the flat vector, as instantiation does:
+        # block *operations* now carry other values than the circuits stored
+        # inside their CircuitGates
+        c.set_params([float(x) + 0.37 for x in c.params])
     return c
 
 
